@@ -49,6 +49,7 @@ class Env:
         self.isinst = {}     # class name -> set of types for which isinstance is True
         self.identity = set()  # function/method names that are the identity on the abstraction
         self.truthy = {}     # type -> fmt turning a value into bool ("{0}" placeholder)
+        self.always_truthy = set()   # object types without __bool__/__len__ (an Optional of them is truthy iff not None)
 
 
 CMP_Z = {ast.Lt: '({0} <? {1})', ast.LtE: '({0} <=? {1})', ast.Gt: '({1} <? {0})',
@@ -61,11 +62,16 @@ class Tr:
         self.vars = dict(spec.params)      # name -> type
         self.ret = spec.ret
         self.raises = isinstance(spec.ret, tuple) and spec.ret[0] == 'res'
+        self.narrow = {}                   # source text of an Optional expression -> (bound var, T)
+        self.fresh = 0
 
     # ---------------- expressions ----------------
     def expr(self, n):
         """returns (gallina string, type)"""
         e = self.env
+        key = ast.unparse(n) if isinstance(n, (ast.Attribute, ast.Name)) else None
+        if key is not None and key in self.narrow:
+            return self.narrow[key]
         if isinstance(n, ast.Name):
             if n.id in self.vars:
                 return n.id if n.id not in ('end', 'at', 'in') else n.id + '_', self.vars[n.id]
@@ -222,8 +228,8 @@ class Tr:
     def call(self, n):
         e = self.env
         args = [self.expr(a) for a in n.args]
-        if n.keywords:
-            fail(n, 'keyword arguments')
+        if any(k.arg is not None for k in n.keywords):
+            fail(n, 'keyword arguments')      # a bare **kwargs pass-through is ignored
         ats = tuple(t for _, t in args)
         avs = [v for v, _ in args]
         if isinstance(n.func, ast.Name):
@@ -319,6 +325,9 @@ class Tr:
                 return self.block(s.body + ([] if self.terminates(s.body) else rest))
             if c is False:
                 return self.block(s.orelse + rest)
+            nar = self.narrowing_if(s, rest)
+            if nar is not None:
+                return nar
             cond = self.boolean(s.test)
             saved = dict(self.vars)
             a = self.block(s.body + ([] if self.terminates(s.body) else rest))
@@ -351,6 +360,59 @@ class Tr:
                 return f'(Ok ({self.env.ctors[key][0]} {" ".join(vals)}))'
             fail(s, 'assignment target')
         fail(s, 'statement')
+
+    def opt_operands(self, test):
+        """the test is a conjunction of Optional-typed expressions used for their truthiness
+        (objects without __bool__/__len__: truthy iff not None) -> list of (node, T), else None"""
+        parts = test.values if isinstance(test, ast.BoolOp) and isinstance(test.op, ast.And) else [test]
+        out = []
+        for p_ in parts:
+            if not isinstance(p_, (ast.Attribute, ast.Name)):
+                return None
+            try:
+                _, t = self.expr(p_)
+            except Abstain:
+                return None
+            if not (isinstance(t, tuple) and t[0] == 'opt' and t[1] in self.env.always_truthy):
+                return None
+            out.append((p_, t[1]))
+        return out
+
+    def narrowing_if(self, s, rest):
+        # form 1: `if A and B: body` with A, B Optional objects
+        ops = self.opt_operands(s.test)
+        if ops:
+            else_blk = s.orelse + ([] if (s.orelse and self.terminates(s.orelse)) else rest)
+            saved = dict(self.narrow)
+            binds = []
+            for node, t in ops:
+                self.fresh += 1
+                v = f'nv{self.fresh}'
+                binds.append((self.expr(node)[0], v))
+                self.narrow[ast.unparse(node)] = (v, t)
+            body = self.block(s.body + ([] if self.terminates(s.body) else rest))
+            self.narrow = saved
+            els = self.block(else_blk)
+            out = body
+            for src, v in reversed(binds):
+                out = f'(match {src} with Some {v} => {out} | None => {els} end)'
+            return out
+        # form 2: `if X is None: <terminating body>` -> rest sees X narrowed
+        t_ = s.test
+        if isinstance(t_, ast.Compare) and len(t_.ops) == 1 and isinstance(t_.ops[0], ast.Is) and \
+                isinstance(t_.comparators[0], ast.Constant) and t_.comparators[0].value is None and \
+                isinstance(t_.left, (ast.Attribute, ast.Name)) and not s.orelse and self.terminates(s.body):
+            src, t = self.expr(t_.left)
+            if isinstance(t, tuple) and t[0] == 'opt':
+                none_blk = self.block(s.body)
+                saved = dict(self.narrow)
+                self.fresh += 1
+                v = f'nv{self.fresh}'
+                self.narrow[ast.unparse(t_.left)] = (v, t[1])
+                some_blk = self.block(rest)
+                self.narrow = saved
+                return f'(match {src} with None => {none_blk} | Some {v} => {some_blk} end)'
+        return None
 
     def terminates(self, stmts):
         if not stmts:
